@@ -282,6 +282,10 @@ func (f *Fed) Post(body []byte, contentType string) (int, []byte) {
 	}
 	rr := httptest.NewRecorder()
 	f.GW.Handler(rr, r)
+	// net/http's server removes the files a multipart form was spooled to once the handler has returned
+	if r.MultipartForm != nil {
+		r.MultipartForm.RemoveAll()
+	}
 	return rr.Code, rr.Body.Bytes()
 }
 
